@@ -653,6 +653,10 @@ pub fn run_c13(tier: &str, seed: u64, shard: usize, of: usize, only_job: Option<
             for k in 0..(if thorough { 40 } else { 12 }) {
                 c13_async_stop(&b, spec, depth, job, k, &f_log, &mut rng, &mut distinct_cuts);
             }
+            // the clock as interrupter: movetime and a few milliseconds on the clock
+            for k in 0..(if thorough { 16 } else { 6 }) {
+                c13_clock(&b, spec, depth, job, k, &f_log, &mut distinct_cuts);
+            }
         }
     }
     out::count("C13.nontrivial", distinct_cuts);
@@ -754,6 +758,26 @@ fn c13_cut(b: &Board, spec: &PosSpec, depth: u8, job: usize, n: u64, f_log: &[Tt
         ));
     }
     c13_compare(spec, depth, job, &format!("node budget {n}"), &s_log, &s_table, f_log, Some(n), distinct_cuts);
+}
+
+fn c13_clock(b: &Board, spec: &PosSpec, depth: u8, job: usize, k: u64, f_log: &[TtEvent], distinct_cuts: &mut u64) {
+    clear_tt();
+    verif_hooks::tt_record_start();
+    let limits = if k % 2 == 0 {
+        SearchLimits::new().movetime(Some(u128::from(k / 2)))
+    } else {
+        // time manager: clock/20 + increment/2 milliseconds for the side to move
+        SearchLimits::new().white_time(Some(u128::from(k) * 10)).black_time(Some(u128::from(k) * 10))
+    };
+    let how = format!("clock limits {limits:?}");
+    let r = engine_search(b, Some(limits), Some(depth));
+    let s_log = verif_hooks::tt_record_take();
+    let s_table = tt_snapshot();
+    if r.panicked.is_some() {
+        out::count("C13.interrupted_searches_that_panicked", 1);
+    }
+    out::count("C13.clock_interruptions", 1);
+    c13_compare(spec, depth, job, &how, &s_log, &s_table, f_log, None, distinct_cuts);
 }
 
 #[allow(clippy::too_many_arguments)]
